@@ -251,6 +251,10 @@ def vel_run(case):
             raise Violation("input_velocity step %d: non-finite output" % k, **case)
         if abs(psi1) > PI + 1e-12:
             raise Violation("input_velocity step %d: yaw set-point %.9f leaves [-pi, pi]" % (k, psi1), **case)
+        pv = float(np.asarray(psiv).reshape(-1)[0])
+        if not math.isfinite(pv) or abs(pv - 60 * PI / 180 * s_["aetr"][3]) > 1e-12:
+            raise Violation("input_velocity step %d: yaw-rate command %.12g is not the linear, bounded stick map 60 deg/s * rudder = %.12g"
+                            % (k, pv, 60 * PI / 180 * s_["aetr"][3]), **case)
         want = psi + 60 * PI / 180 * s_["aetr"][3] * s_["dt"]
         d = (psi1 - want + PI) % (2 * PI) - PI
         if abs(d) > 1e-9:
@@ -409,6 +413,50 @@ def check_att(case):
     L.close(u, want_u, "se23_attitude_control vs rotational rows of J_l(zeta) K zeta", atol=1e-8 * (1 + float(np.max(np.abs(want_u)))), rtol=0, **case)
 
 
+_S = math.sqrt(0.5)
+EXACT_Q = [(1.0, 0, 0, 0), (0, 1.0, 0, 0), (0, 0, 1.0, 0), (0, 0, 0, 1.0), (_S, _S, 0, 0), (_S, -_S, 0, 0), (_S, 0, _S, 0), (_S, 0, -_S, 0),
+           (_S, 0, 0, _S), (_S, 0, 0, -_S), (0, _S, _S, 0), (0, _S, -_S, 0), (0.5, 0.5, 0.5, 0.5), (0.5, -0.5, 0.5, -0.5), (0.5, 0.5, -0.5, -0.5),
+           (0, 0.6, 0.8, 0), (0, 0.8, -0.6, 0), (0.6, 0, 0, 0.8), (0.8, 0, 0, -0.6), (0.6, 0.8, 0, 0), (0.8, -0.6, 0, 0)]
+HALF_TURN_PAIRS = [(a, b) for a in EXACT_Q for b in EXACT_Q if a != b and sum(x * y for x, y in zip(a, b)) == 0.0]
+
+
+@st.composite
+def half_turn_case(draw):
+    i = draw(st.integers(0, len(HALF_TURN_PAIRS) - 1))
+    return {"pair": i, "sq": int(draw(st.sampled_from([1, -1]))), "sr": int(draw(st.sampled_from([1, -1]))), "kp": draw(v3(0.1, 10.0)),
+            "p": draw(v3(-5.0, 5.0)), "v": draw(v3(-3.0, 3.0)), "dp": draw(v3(-2.0, 2.0)), "dv": draw(v3(-2.0, 2.0))}
+
+
+def check_half_turn(case):
+    """Attitude errors of exactly half a turn between exactly representable quaternions (q . q_r == 0.0): the error rotation
+    vector has length pi with either sign of the axis; every law must stay finite and its commanded rotation must reach q_r."""
+    require(0 <= case["pair"] < len(HALF_TURN_PAIRS))
+    a, b = HALF_TURN_PAIRS[case["pair"]]
+    q, q_r = case["sq"] * np.array(a, float), case["sr"] * np.array(b, float)
+    Rq, Rr = ref.quat_to_R(q), ref.quat_to_R(q_r)
+    (e1,) = call("att", np.ones(3), q, q_r)
+    if not np.all(np.isfinite(e1)):
+        raise Violation("attitude_control: non-finite command for a half-turn attitude error (q . q_r = 0 exactly)", q=q.tolist(), q_r=q_r.tolist())
+    L.close(Rq @ ref.rotvec_to_R(e1), Rr, "attitude_control at a half-turn error: R(q) Exp(e) vs R(q_r)", atol=1e-7, rtol=0, q=q.tolist(), q_r=q_r.tolist())
+    (om2,) = call("so3att", np.array(case["kp"]), q, q_r)
+    if not np.all(np.isfinite(om2)):
+        raise Violation("so3_attitude_control: non-finite command for a half-turn attitude error (q . q_r = 0 exactly)", q=q.tolist(), q_r=q_r.tolist())
+    p, v = np.array(case["p"]), np.array(case["v"])
+    pr, vr = p + np.array(case["dp"]), v + np.array(case["dv"])
+    (zeta,) = call("se23err", p, v, q, pr, vr, q_r)
+    if not np.all(np.isfinite(zeta)):
+        raise Violation("se23_error: non-finite zeta for a half-turn attitude error (q . q_r = 0 exactly): %s" % zeta.tolist(), q=q.tolist(), q_r=q_r.tolist())
+    gi = cy.registry()["SE23Quat"]
+    X = np.eye(5); X[:3, :3] = Rq; X[:3, 3] = v; X[:3, 4] = p
+    Xr = np.eye(5); Xr[:3, :3] = Rr; Xr[:3, 3] = vr; Xr[:3, 4] = pr
+    want_eta = np.linalg.inv(X) @ Xr
+    L.close(ref.expm(L.hat(gi, zeta)), want_eta, "se23_error at a half-turn error: expm(hat(zeta)) vs M(X)^-1 M(X_r)",
+            atol=1e-6 * (1 + float(np.max(np.abs(want_eta)))), rtol=0, q=q.tolist(), q_r=q_r.tolist())
+    (u,) = call("se23att", np.array(case["kp"]), zeta)
+    if not np.all(np.isfinite(u)):
+        raise Violation("se23_attitude_control: non-finite command for a half-turn attitude error", q=q.tolist(), q_r=q_r.tolist())
+
+
 def check_att_zero(case):
     ax, th = gens.unit_axis(case["q"]["axis"]), case["q"]["angle"]
     q = ref.quat_from_axis_angle(ax, th, float(case["q"]["sign"]))
@@ -441,6 +489,8 @@ def build(tier):
              build=lambda: (fn("acro"), fn("level"))),
         Cell("attitude_law", att_case(), check_att, lambda c: c["rel"]["angle"] > 0.1,
              lambda c: ["rel:" + c["rel"]["stratum"], "sign_q:%d" % c["q"]["sign"], "sign_r:%d" % c["sign_r"]], quick=500, thorough=10000,
+             build=lambda: (fn("att"), fn("so3att"), fn("se23err"), fn("se23att"))),
+        Cell("attitude_half_turn", half_turn_case(), check_half_turn, lambda c: True, None, quick=200, thorough=2000,
              build=lambda: (fn("att"), fn("so3att"), fn("se23err"), fn("se23att"))),
         Cell("attitude_zero_error", att_case(), check_att_zero, lambda c: c["q"]["angle"] > 0.1,
              lambda c: ["sign_q:%d" % c["q"]["sign"]], quick=300, thorough=6000),
